@@ -669,10 +669,10 @@ int vnadata_convert(const vnadata_t *vdp_in, vnadata_t *vdp_out,
      * change the dimensions to a row vector.
      */
     if (vdp_in == vdp_out && (group & CONV_MASK) == CONV_xtoI) {
-	if (vdp_out->vd_rows < vdp_out->vd_columns) {
-	    vdp_out->vd_columns = vdp_out->vd_rows;
-	}
-	vdp_out->vd_rows = 1;
+	int ports = MIN(vdp_out->vd_rows, vdp_out->vd_columns);
+
+	/* resize re-initializes the vacated cells */
+	return vnadata_resize(vdp_out, newtype, 1, ports, vdp_out->vd_frequencies);
     }
     return 0;
 }
